@@ -6,7 +6,7 @@
    the pending handlers to the FIFO with operation_aborted and empty the slots. *)
 From Coq Require Import List ZArith Lia Bool.
 From RecordUpdate Require Import RecordSet.
-From Sim Require Import Map Variant Current Kernel Queue Net Pcap HttpParse SimState Sim Apps Script SockProofs KernelInv KernelTrace KernelFifo KernelTimers.
+From Sim Require Import Map Variant Current Kernel Queue Net Pcap HttpParse SimState Sim Apps Script SockProofs KernelInv KernelTrace KernelFifo KernelTimers HandlerProofs.
 Import ListNotations.
 Local Open Scope Z_scope.
 
@@ -97,3 +97,86 @@ Theorem C04_refuted_before_repair_udp_wait_write_abort :
   udp_abort_send v s w = (w, [KLog (TAG_FUEL, [22])]).
 Proof. intros v s w h D H. unfold udp_abort_send. rewrite H, D. reflexivity. Qed.
 Print Assumptions C04_refuted_before_repair_udp_wait_write_abort.
+
+(* ---- conservation of handlers at the socket layer (Proofs/HandlerProofs.v): an
+   initiating call parks the handler (calling nothing) or posts it - it never
+   invokes it, never does both, never neither ---- *)
+Theorem C04_tcp_read_parks_or_posts :
+  forall s bufs h w,
+  let w' := fst (tcp_async_read_impl s bufs h w) in
+  let cs := snd (tcp_async_read_impl s bufs h w) in
+  (t_recv_h (get_tcp w' s) = Some h /\ cs = []) \/ (t_recv_h (get_tcp w' s) = None /\ posted_once h cs).
+Proof. exact async_read_parks_or_posts. Qed.
+Print Assumptions C04_tcp_read_parks_or_posts.
+
+Theorem C04_tcp_wait_read_parks_or_posts :
+  forall s h w,
+  let w' := fst (tcp_wait_read_impl s h w) in
+  let cs := snd (tcp_wait_read_impl s h w) in
+  (t_wait_recv_h (get_tcp w' s) = Some h /\ cs = []) \/ posted_once h cs.
+Proof. exact wait_read_parks_or_posts. Qed.
+Print Assumptions C04_tcp_wait_read_parks_or_posts.
+
+Theorem C04_tcp_write_parks_or_posts :
+  forall cx s bufs h w,
+  let w' := fst (tcp_async_write_impl cx s bufs h w) in
+  let cs := snd (tcp_async_write_impl cx s bufs h w) in
+  (t_send_h (get_tcp w' s) = Some h /\ cs = []) \/
+  (t_send_h (get_tcp w' s) = None /\ exists net_calls args, cs = net_calls ++ [KPost (TUser h args)]).
+Proof. exact async_write_parks_or_posts. Qed.
+Print Assumptions C04_tcp_write_parks_or_posts.
+
+Theorem C04_udp_receive_parks_or_posts :
+  forall cx s bufs want h w,
+  let w' := fst (udp_async_recv_impl cx s bufs want h w) in
+  let cs := snd (udp_async_recv_impl cx s bufs want h w) in
+  (u_recv_h (get_udp w' s) = Some h /\ cs = []) \/ (u_recv_h (get_udp w' s) = None /\ posted_once h cs).
+Proof. exact udp_async_recv_parks_or_posts. Qed.
+Print Assumptions C04_udp_receive_parks_or_posts.
+
+Theorem C04_udp_wait_parks_or_posts :
+  forall s want h w,
+  let w' := fst (udp_wait_recv_impl s want h w) in
+  let cs := snd (udp_wait_recv_impl s want h w) in
+  (u_wait_recv_h (get_udp w' s) = Some h /\ cs = []) \/ posted_once h cs.
+Proof. exact udp_wait_recv_parks_or_posts. Qed.
+Print Assumptions C04_udp_wait_parks_or_posts.
+
+(* a new operation of the same kind aborts the outstanding one exactly once, then the rule above applies *)
+Theorem C04_new_read_supersedes_the_old_one :
+  forall v now s bufs h w,
+  let t := get_tcp w s in
+  exists w1,
+    tcp_abort_recv s w = (w1, post_h (t_recv_h t) [EC_ABORTED; 0; 0; 0] ++ post_h (t_wait_recv_h t) [EC_ABORTED]) /\
+    t_recv_h (get_tcp w1 s) = None /\ t_wait_recv_h (get_tcp w1 s) = None /\
+    do_uop v now (UTcpRead s bufs h) w =
+      (fst (tcp_async_read_impl s bufs h w1),
+       (post_h (t_recv_h t) [EC_ABORTED; 0; 0; 0] ++ post_h (t_wait_recv_h t) [EC_ABORTED])
+       ++ snd (tcp_async_read_impl s bufs h w1)).
+Proof. exact new_read_supersedes_the_old_one. Qed.
+Print Assumptions C04_new_read_supersedes_the_old_one.
+
+Theorem C04_new_write_supersedes_the_old_one :
+  forall v now s bufs h w,
+  let t := get_tcp w s in
+  exists w1,
+    tcp_abort_send s w = (w1, post_h (t_send_h t) [EC_ABORTED; 0]) /\
+    t_send_h (get_tcp w1 s) = None /\
+    do_uop v now (UTcpWrite s bufs h) w =
+      (fst (tcp_async_write_impl (mkcx v now) s bufs h w1),
+       post_h (t_send_h t) [EC_ABORTED; 0] ++ snd (tcp_async_write_impl (mkcx v now) s bufs h w1)).
+Proof. exact new_write_supersedes_the_old_one. Qed.
+Print Assumptions C04_new_write_supersedes_the_old_one.
+
+Theorem C04_new_udp_receive_supersedes_the_old_one :
+  forall v now s bufs want h w,
+  let u := get_udp w s in
+  exists w1,
+    udp_abort_recv s w = (w1, post_h (u_recv_h u) [EC_ABORTED; 0; 0; 0] ++ post_h (u_wait_recv_h u) [EC_ABORTED]) /\
+    u_recv_h (get_udp w1 s) = None /\ u_wait_recv_h (get_udp w1 s) = None /\
+    do_uop v now (UUdpAsyncRecv s bufs want h) w =
+      (fst (udp_async_recv_impl (mkcx v now) s bufs want h w1),
+       (post_h (u_recv_h u) [EC_ABORTED; 0; 0; 0] ++ post_h (u_wait_recv_h u) [EC_ABORTED])
+       ++ snd (udp_async_recv_impl (mkcx v now) s bufs want h w1)).
+Proof. exact new_udp_receive_supersedes_the_old_one. Qed.
+Print Assumptions C04_new_udp_receive_supersedes_the_old_one.
